@@ -80,6 +80,11 @@ chk("C20", "fault_enumeration",
     "The complete fault product as environment answers: cached inbound connection {absent, healthy, reset before send 0/1/2} x reconnectable path {fresh, stale, absent} x every dial plan of up to three outcomes over {accepted, refused, accepted-but-writes-fail} x working connection reset before send 0/1/2 x 1-3 sends, for the fail-over transport obtained from the real ClientTransportMgr, a directly built one, TCPBackend, and end to end (responses to a TCP client, requests to a TCP backend): nil iff exactly one complete delivery, success whenever a path works, no write on a failed connection, no needless dial, no hang, no crash.",
     TRUST + " A write on a reset connection fails at once (kernel-delayed RST is outside the model).", "exhaustive fault-pattern enumeration through a simulated network with scripted dial/write faults", "§4 C20")
 
+chk("C09", "model_checking",
+    "Stateless depth-first search over schedules with deviation bounding of the REAL proxy built with -race: two listens entries of one service with UDP+TCP listeners and UDP/TCP backends (one by host name), UDP and TCP clients, reactive backend doubles, and a membership change through the real resolver callback path, injected without waiting; scenarios two-clients (<=2 deviations, thorough <=3), three-clients (shared learned-route keys), tcp-backend-churn (host-name TCP backend connected, removed and replaced under traffic). Every enumerated execution is checked by a packet-log oracle (one backend of the own listener per request, response back at the sender, no crash/deadlock) AND by the Go race detector, which sees exactly the program's own synchronisation because the scheduler's hand-off is a norace spin.",
+    TRUST + " Scheduling points = synchronisation operations, select, socket reads; unsynchronised accesses are reported by the race detector on every explored execution; socket operations carry the happens-before edges the Go runtime gives them on unix.",
+    "deviation-bounded stateless schedule exploration (CHESS style) of the real code under the Go race detector", "§4 C09")
+
 ALL = ["C%02d" % i for i in range(1, 21)]
 man = {
     "version": 1,
